@@ -19,7 +19,9 @@ RULE = ("CHTTP: (neg) 49 hand-written + seeded header values (case, outer/inner 
         "layer, seeded scripts; the answer is decoded with the real DecompressResponse. (cli) the real doRequest (hook) with the real "
         "fileProducer against 1..3 servers behind the real Middleware: 9 advertised-encoding strings x 15 event scripts (transport errors, 503, "
         "406, a server that does not know the coding = 415, 404) x file sizes 0..200000 x 6 handler scripts x retries {0,1,3,5}. "
-        "(bomb, C11) 0 / 1 / 16 / 80 MiB of zeros under each coding through the real Middleware, the handler counts. (conc, C14) 2..32 requests "
+        "(bomb, C11) 0 / 1 / 16 / 80 MiB of zeros under each coding through the real Middleware, the handler counts. (sbuf, C11) the real Sign of the "
+        "appmanifest and cat signers on 0 / 1 / 1000 / limit / limit+1 / limit+2 zero bytes and on a stream that never ends: bytes taken from the "
+        "stream and whether the input was refused for its size. (conc, C14) 2..32 requests "
         "released at once against one server (mixed codings, refused, cut, wrongly labelled), 6 rounds. Bodies are not shipped: ops carry segment "
         "lengths and a seed, the model runs on one-byte stand-ins with toy codecs and both sides print outcomes relative to what was sent "
         "(c:full, c:seg<j>, c:wire, failed, openerr). Non-trivial = distinct op that reaches a decoder, the middleware or the client loop.")
@@ -38,11 +40,10 @@ ASSUMPTIONS = ["handlers do not set Content-Length themselves after the middlewa
                "statuses 1xx, 204 and 304 are not used by handlers (net/http forbids a body there)",
                "header values stay in visible ASCII + SP/HTAB/VT/FF (strings.TrimSpace restricted to ASCII white space, as in Relic.Model.Transport)",
                "one script entry per call of http.Client.Do (Relic.Model.Transport); the handler reads the body to its end before answering"]
-UNPROVED = ["roundtrip_response_full (false: roundtrip_response_full_false; proved: roundtrip_response_partial for handlers whose first operation is "
-            "not Flush and that do not announce 2xx without writing under gzip)",
-            "clean_prefix_never_accepted_full (false for frame-sequence codecs: snappy_clean_prefix_accepted; proved for self-delimiting codecs in "
+UNPROVED = ["clean_prefix_never_accepted_full (false for frame-sequence codecs: snappy_clean_prefix_accepted; proved for self-delimiting codecs in "
             "truncated_never_accepted)"]
-UNPROVED_C11 = ["decompress_bounded_full (false: decompress_unbounded; proved: decompress_bounded_by_expansion)"]
+UNPROVED_C11 = ["decompress_bounded_full (false of the middleware itself: decompress_unbounded; proved: decompress_bounded_by_expansion, and "
+                "buffering_signers_bounded for the signers that read their input into memory)"]
 
 GEN = os.path.join(runner.LEAN, "Relic", "Generated", "CompressHttp.lean")
 
@@ -57,7 +58,8 @@ def generate(ctx):
         open(GEN, "w").write("/- GENERATED: extractor failed: %s -/\nnamespace Relic.Generated.CompressHttp\nend Relic.Generated.CompressHttp\n"
                              % r.stdout.replace("-/", "- /")[-400:])
     return ["Relic.Props.C09.generated_prefs_eq (regenerated Relic.Generated.CompressHttp)", "Relic.Props.C09.generated_consts_eq",
-            "Relic.Props.C09.generated_switch_eq", "Relic.Props.C09.generated_statuses_eq", "Relic.Props.C14.compresshttp_package_state_readonly"]
+            "Relic.Props.C09.generated_switch_eq", "Relic.Props.C09.generated_statuses_eq", "Relic.Props.C14.compresshttp_package_state_readonly",
+            "Relic.Props.C11.generated_buffering_eq"]
 
 
 # ---------------------------------------------------------------------------------------------
@@ -140,6 +142,8 @@ def branch(op, mres, tag):
         return "cli:" + ":".join(mres.split(" ")[-1].split(":")[:2] + mres.split(" ")[-1].split(":")[3:])
     if k == "bomb":
         return "bomb:" + f[2]
+    if k == "sbuf":
+        return "sbuf:%s:%s" % (f[2], mres.split("res=")[-1])
     if k == "conc":
         return "conc:n=" + f[2]
     return k
@@ -217,10 +221,10 @@ def predicate(prop, op, il, mres, tag):
     if il.startswith(("panic", "crash", "not-run")):
         return ("Relic.Props.C11.decompress_total", mres, "implementation crashed: " + il[:200])
     if not il.startswith("ok "):
-        if prop == "C11" and k in ("srv", "law", "bomb"):
+        if prop == "C11" and k in ("srv", "law", "bomb", "sbuf"):
             return ("Relic.Props.C11.decompress_total", mres, "a malformed or huge stream was not answered in an orderly way: " + il[:200])
         return None
-    if prop == "C11" and k != "bomb":
+    if prop == "C11" and k not in ("bomb", "sbuf"):
         # C11 on these ops: no crash, no hang, the tie (outcome = model's outcome) and: a malformed stream is an error for the handler
         if k == "srv":
             d = _kv(il[3:])
@@ -269,18 +273,29 @@ def predicate(prop, op, il, mres, tag):
         # a server that cannot decode the chosen coding: the client should fall back, it gives up instead
         ev = f[5].split(",")
         if fin == "httperr:415" and len(atts) <= len(ev) and ev[len(atts) - 1] == "u":
-            return ("Relic.Props.C09.fallback_not_taken_on_415", "retry without compression (as on 406)",
+            return ("Relic.Props.C09.fallback_on_415", "retry without compression (as on 406)",
                     "the server refused the request coding with 415; doRequest treats only 406 as a reason to resend uncompressed")
         if fin == "neterr" and mres.split(" ")[-1] == "neterr" and "#" not in mres:
             return None
         return None
     if k == "bomb":
+        # the middleware itself hands on every decoded byte (Relic.Props.C11.decompress_unbounded): characterised by the tie, the
+        # bound that matters is the one of the signers that buffer (sbuf ops)
+        return None
+    if k == "sbuf":
         d = _kv(il[3:])
-        if "decoded" in d:
-            dec, wire = int(d["decoded"]), int(d.get("wire", "0"))
-            if dec > (64 << 20) + 64 * wire:
-                return ("Relic.Props.C11.decompress_bounded_full", "decoded <= 64 MiB + 64 x bytes on the wire",
-                        "%d bytes on the wire made the handler read %d bytes (factor %d); nothing bounds the decoded size" % (wire, dec, dec // max(wire, 1)))
+        mx = {"appmanifest": 64 << 20, "cat": 256 << 20}.get(f[2])
+        if mx is None:
+            return None
+        held = int(d.get("held", "-1"))
+        n = None if f[3] == "inf" else int(f[3])
+        if held > mx + 1:
+            return ("Relic.Props.C11.buffering_signers_bounded", "held <= %d" % (mx + 1),
+                    "the %s signer took %d bytes of its input into memory (nothing bounds the decoded size of an upload)" % (f[2], held))
+        if (n is None or n > mx) and d.get("res") != "toolarge":
+            return ("Relic.Props.C11.buffering_signers_bounded", "res=toolarge", "an input above the limit was handed to the parser")
+        if n is not None and n <= mx and (d.get("res") != "parser" or held != n):
+            return ("Relic.Props.C11.buffering_signers_bounded", "held=%d res=parser" % n, "an input within the limit was not handed to the parser whole")
         return None
     return None
 
